@@ -426,18 +426,40 @@ func checkC07(c *Ctx) {
 		}
 		// every announced view and the own view are recorded unconditionally
 		viewsT := m.LookupType(PkgDisc, "views")
+		// the functions run for every announced view: what intersectedView passes to sync.Map.Range — a
+		// literal or a method value
+		ivFns := WithAnon(iv)
+		isCallback := map[*ssa.Function]bool{}
+		for _, in := range instrsDeep(iv) {
+			cl, ok := in.(*ssa.Call)
+			if !ok || !isCallTo(&cl.Call, "sync", "Map.Range") || len(cl.Call.Args) != 2 {
+				continue
+			}
+			if mc, ok := resultOf(cl.Call.Args[1]).(*ssa.MakeClosure); ok {
+				if f, ok := mc.Fn.(*ssa.Function); ok {
+					if _, mo, isB := boundMethod(mc); isB {
+						if g := m.Prog.FuncValue(mo); g != nil && g.Blocks != nil && pkgPathOf(g) == PkgDisc {
+							isCallback[g] = true
+							ivFns = append(ivFns, WithAnon(g)...)
+						}
+					} else {
+						isCallback[f] = true
+					}
+				}
+			}
+		}
 		var ups []*ssa.MapUpdate
 		if viewsT != nil {
-			ups = mapUpdatesOfType(WithAnon(iv), viewsT)
+			ups = mapUpdatesOfType(ivFns, viewsT)
 		}
 		inRange, own := false, false
 		for _, mu := range ups {
 			if len(GuardsLocal(mu)) != 0 {
 				continue
 			}
-			if mu.Parent() != iv {
+			if isCallback[mu.Parent()] {
 				inRange = true
-			} else {
+			} else if mu.Parent() == iv || rootOfHelper(mu.Parent()) == iv {
 				own = true
 			}
 		}
